@@ -40,6 +40,9 @@ def run(plan):
 
     async def main(w):
         ac = s.make_clients()[0]
+        if plan["config"].get("backpressure"):
+            w.net.backpressure = 1 / 4096
+            w.fire("backpressure")
         if s.version == 3:
             o = await s.do({"op": "auth"})
             if o.kind != "ok":
@@ -127,7 +130,7 @@ def gen(j, rng, nops):
     else:
         pages = [[[(c, v.hex()) for c, v in recs], rng.choice([None, False])]]
     cfg = {"version": version, "msg_id_start": rng.choice([0, 1, 200, 250, 254, 255, rng.randrange(256)]),
-           "caps_pages": pages}
+           "caps_pages": pages, "backpressure": rng.random() < 0.25}
     ops = [{"op": "caps"}] if rng.random() < 0.8 else []
     while len(ops) < nops:
         r = rng.random()
